@@ -263,7 +263,9 @@ func (c *otApplyContext) applySubsAlternate(alternates []gID) bool {
 	if altIndex == otMapMaxValue && c.random {
 		// Maybe we can do better than unsafe-to-break all; but since we are
 		// changing random state, it would be hard to track that.  Good 'nough.
-		c.buffer.unsafeToBreak(0, len(c.buffer.Info))
+		// The glyphs before idx live in the output buffer, which (unlike in the C library,
+		// where out_info aliases info until the glyph count changes) is a separate slice.
+		c.buffer.unsafeToBreakFromOutbuffer(0, len(c.buffer.Info))
 		altIndex = c.randomNumber()%count + 1
 	}
 
